@@ -225,6 +225,13 @@ theorem hadCheck_noNewHave (m : M) : NoNewHave m (hadCheck m) := by
     simp only [onSt_snd] at ho
     exact processQueued_noNewHave (m.1.checkCompletion.1, m.2) o ho
 
+theorem hadFresh_noNewHave (m : M) : NoNewHave m (hadFresh m) := by
+  unfold hadFresh
+  dsimp only
+  split
+  · exact NoNewHave.of_eq (by simp [hadFreshInstall])
+  · exact (NoNewHave.of_eq (by simp [hadFreshInstall])).trans (hadCheck_noNewHave _)
+
 theorem handleAllocationDone_noNewHave (m : M) (ex mi : Bool) : NoNewHave m (handleAllocationDone m ex mi) := by
   rw [handleAllocationDone_eq]
   dsimp only
@@ -232,6 +239,7 @@ theorem handleAllocationDone_noNewHave (m : M) (ex mi : Bool) : NoNewHave m (han
   repeat' split
   all_goals first
     | exact (NoNewHave.of_eq h0).trans ((NoNewHave.of_eq (by simp)).trans (hadCheck_noNewHave _))
+    | exact (NoNewHave.of_eq h0).trans (hadFresh_noNewHave _)
     | exact (NoNewHave.of_eq h0).trans (NoNewHave.of_eq (by simp))
 
 theorem allocatorRun_noNewHave (m : M) : NoNewHave m (allocatorRun m) := by
